@@ -882,8 +882,11 @@ fn gens_json<C: Cv>(g: &Gens<C>) -> Value {
     if g.bp.party_capacity == 0 {
         return json!({"B": enc_p::<C>(&g.pc.B), "Bb": enc_p::<C>(&g.pc.B_blinding), "G": [], "H": []});
     }
-    let gv: Vec<Value> = g.bp.G(g.bp.gens_capacity, 1).map(enc_p::<C>).collect();
-    let hv: Vec<Value> = g.bp.H(g.bp.gens_capacity, 1).map(enc_p::<C>).collect();
+    // (a table whose vectors are shorter than its advertised capacity makes the view panic: recorded as an empty table)
+    let views = catch_unwind(AssertUnwindSafe(|| -> (Vec<Value>, Vec<Value>) {
+        (g.bp.G(g.bp.gens_capacity, 1).map(enc_p::<C>).collect(), g.bp.H(g.bp.gens_capacity, 1).map(enc_p::<C>).collect())
+    }));
+    let (gv, hv) = views.unwrap_or((vec![], vec![]));
     json!({"B": enc_p::<C>(&g.pc.B), "Bb": enc_p::<C>(&g.pc.B_blinding), "G": gv, "H": hv})
 }
 
@@ -1230,7 +1233,11 @@ pub fn infer_roles<C: Cv>(prog: &Program, base: &ProverOut<C>) -> Option<(Vec<Fr
     let pc = make_pc::<C>(&prog.p.pc);
     let bp = make_bp::<C>(&prog.p, "P", None);
     let cap = bp.gens_capacity;
-    let (gv, hv): (Vec<C::G>, Vec<C::G>) = if bp.party_capacity >= 1 { (bp.G(cap, 1).cloned().collect(), bp.H(cap, 1).cloned().collect()) } else { (vec![], vec![]) };
+    let (gv, hv): (Vec<C::G>, Vec<C::G>) = if bp.party_capacity >= 1 {
+        catch_unwind(AssertUnwindSafe(|| (bp.G(cap, 1).cloned().collect(), bp.H(cap, 1).cloned().collect()))).ok()?
+    } else {
+        (vec![], vec![])
+    };
     let mut roles: Vec<Vec<Value>> = vec![];
     let mut stable = true;
     for k in 0..d0.len() {
